@@ -140,12 +140,15 @@ def mapping_schedules(ctx, rng, tag, n_cells, chunk_size, n_processors, limit):
         return
     dig0 = mapping_digest(base / 'base')
     k = len(res0['exit_codes']['mapping'])
-    cells = json.loads(dig0['results'])
-    cell_ids = [c['cell_id'] for c in cells]
+    cell_ids = list(sc.cell_ids)                       # the order of the query file
     rank = {c: i for i, c in enumerate(sorted(cell_ids))}
+    row_of = {c: i for i, c in enumerate(cell_ids)}
     model_cases, meta = [], []
 
-    def model_part(trace, order, p, what):
+    def obs_final(dig):
+        return [[rank[c['cell_id']], row_of[c['cell_id']]] for c in json.loads(dig['results'])]
+
+    def model_part(trace, order, p, what, dig):
         begins = sorted((r['k'], r['info']) for r in trace if r['ev'] == 'begin' and r['stage'] == 'mapping')
         chunks_o = [[i['r0'], i['r1']] for _, i in begins]
         seeds_o = [[kk, i.get('seed')] for kk, i in begins]
@@ -161,9 +164,9 @@ def mapping_schedules(ctx, rng, tag, n_cells, chunk_size, n_processors, limit):
         model_cases.append((403, [p, len(chunks_o), [0] * len(chunks_o),
                                   [rng.randrange(0, 4) for _ in chunks_o], stream]))
         meta.append({'what': what, 'chunks': chunks_o, 'seeds': seeds_o, 'order': list(order), 'p': p,
-                     'expected_final': [[rank[c], i] for i, c in enumerate(cell_ids)], 'stream': stream})
+                     'observed_final': obs_final(dig), 'stream': stream})
 
-    model_part(tr0, completion_order(tr0, 'mapping'), n_processors, 'baseline')
+    model_part(tr0, completion_order(tr0, 'mapping'), n_processors, 'baseline', dig0)
     missed = 0
     for si, sigma in enumerate(schedules(rng, k, limit)):
         d = base / f's{si}'
@@ -187,7 +190,7 @@ def mapping_schedules(ctx, rng, tag, n_cells, chunk_size, n_processors, limit):
                           dict(rep, differs=bad, **{'class': 'c04-mapping-schedule-dependent'}))
         else:
             ctx.traces_validated += 1
-        model_part(tr, order, n_processors, f'schedule {sigma}')
+        model_part(tr, order, n_processors, f'schedule {sigma}', dig)
         shutil.rmtree(d, ignore_errors=True)
     # W: worker counts
     classes = {}
@@ -201,7 +204,7 @@ def mapping_schedules(ctx, rng, tag, n_cells, chunk_size, n_processors, limit):
         begins = sorted((r['k'], r['info']) for r in tr if r['ev'] == 'begin' and r['stage'] == 'mapping')
         chunks_o = tuple((i['r0'], i['r1']) for _, i in begins)
         classes.setdefault(chunks_o, []).append((p, dig))
-        model_part(tr, completion_order(tr, 'mapping'), p, f'n_processors={p}')
+        model_part(tr, completion_order(tr, 'mapping'), p, f'n_processors={p}', dig)
         ctx.count(('W', tag, p), nontrivial=True)
         ctx.dist('worker_count', f'n={n_cells} c={chunk_size} p={p} -> {len(chunks_o)} chunks')
         shutil.rmtree(d, ignore_errors=True)
@@ -224,8 +227,9 @@ def mapping_schedules(ctx, rng, tag, n_cells, chunk_size, n_processors, limit):
         if ch[0] != 0 or ch[1][1] != m['chunks']:
             ctx.violation(f'{m["what"]}: chunks {m["chunks"]} but Gather.run_chunks says {ch}',
                           dict(rep, model=ch, **{'class': 'corr:Gather.run_chunks'}), no_input=True)
-        if ga[0] != 0 or ga[1] != [m['expected_final']]:
-            ctx.violation(f'{m["what"]}: final order differs from Gather.run_gather',
+        if ga[0] != 0 or ga[1] != [m['observed_final']]:
+            ctx.violation(f'{m["what"]}: order of the result records {[x[1] for x in m["observed_final"]]} (row numbers) differs from '
+                          f'Gather.run_gather {ga[1]}',
                           dict(rep, model=ga, **{'class': 'corr:Gather.run_gather'}), no_input=True)
         exp_seeds = [[kk, s] for kk, s in zip(range(len(m['chunks'])), m['stream'])]
         if se[0] != 0 or se[1][0] != [0] or se[1][1] != exp_seeds or m['seeds'] != exp_seeds:
@@ -277,8 +281,9 @@ def shared_list_schedules(ctx, rng, tag, n_cells, chunk_size, limit):
         ctx.violation(f'assignment (shared list) baseline failed: {res0["error"]}', {'class': 'c04-baseline', 'error': res0['error']})
         return
     ref = json.dumps(res0['value'])
-    cell_ids = [c['cell_id'] for c in res0['value']]
+    cell_ids = list(sc.cell_ids)
     rank = {c: i for i, c in enumerate(sorted(cell_ids))}
+    row_of = {c: i for i, c in enumerate(cell_ids)}
     cases, meta = [], []
     for si, sigma in enumerate(schedules(rng, k, limit)):
         d = base / f's{si}'
@@ -299,7 +304,7 @@ def shared_list_schedules(ctx, rng, tag, n_cells, chunk_size, limit):
         begins = sorted((r['k'], r['info']) for r in tr if r['ev'] == 'begin' and r['stage'] == 'mapping')
         tables = [[[rank[cell_ids[r]], r] for r in range(i['r0'], i['r1'])] for _, i in begins]
         cases.append((401, [0, [rank[c] for c in cell_ids], tables, list(range(len(tables))), order]))
-        meta.append((rep, [[rank[c], i] for i, c in enumerate(cell_ids)]))
+        meta.append((rep, [[rank[c['cell_id']], row_of[c['cell_id']]] for c in res['value']]))
         shutil.rmtree(d, ignore_errors=True)
     for (rep, exp), out in zip(meta, ctx.model(cases)):
         if out[0] != 0 or out[1] != [exp]:
@@ -439,7 +444,7 @@ def run(ctx):
     ]
     q = ctx.quick()
     lim3, lim4 = (6, 6) if q else (6, 24)
-    mapping_schedules(ctx, rng, 'a', n_cells=9, chunk_size=3, n_processors=3, limit=lim3)
+    mapping_schedules(ctx, rng, 'a', n_cells=14, chunk_size=5, n_processors=3, limit=lim3)   # files 0_5, 10_14, 5_10: name order != row order
     shared_list_schedules(ctx, rng, 'a', n_cells=9, chunk_size=3, limit=lim3)
     if not q:
         mapping_schedules(ctx, rng, 'b', n_cells=12, chunk_size=3, n_processors=4, limit=lim4)
